@@ -5,8 +5,8 @@ PBT = "property-based testing (proptest-generated cases, constructive generators
 checks = {
  "C01": ("exploration", "generated task programs x histories (top-down sessions, external changes, task failures, and bottom-up sessions with arbitrary possibly incomplete reports as unjudged history), every returning require compared with a from-scratch evaluator (output and whole resource state); differential oracle", PBT + "; model-based differential against a from-scratch evaluator", "§7 C01"),
  "C02": ("exploration", "trace acceptor over tracker events + task-side log: validation order, justification of every execution (checker errors included), at-most-once, idempotence probes, exact-checker minimality; equivalence and non-equivalence checkers", PBT + "; trace acceptor over generated histories", "§7 C02"),
- "C03": ("exploration", "complete-report bottom-up histories followed by probe sessions requiring every task: nothing known executes, outputs/resources equal from-scratch; acceptor demands complete checking/scheduling", PBT + "; probe sessions + from-scratch differential", "§7 C03"),
- "C04": ("exploration", "bottom-up trace acceptor: executions only of justified scheduled tasks or first-time tasks, once, never before a scheduled dependency, consistent checks never schedule", PBT + "; trace acceptor", "§7 C04"),
+ "C03": ("exploration", "complete-report bottom-up histories (over-reports, duplicate reports, several bottom-up builds per session, sessions kept open across external changes) followed by probe sessions requiring every task: nothing known executes, outputs/resources equal from-scratch; acceptor demands complete checking/scheduling", PBT + "; probe sessions + from-scratch differential", "§7 C03"),
+ "C04": ("exploration", "bottom-up trace acceptor: executions only of justified scheduled tasks or first-time tasks, once per build (also counted from the task-side log), never before a scheduled dependency, consistent checks never schedule", PBT + "; trace acceptor", "§7 C04"),
  "C05": ("exploration", "well-formed programs with one injected read without the required task dependency; access-time oracle on the task-side log and shadow record, in every order, session split and build mode", PBT + " with injected violations; task-side/shadow-record oracle", "§7 C05"),
  "C06": ("exploration", "well-formed programs with an injected second writer (context write and written_to); write function must not run / call must not return / abort must be an overlap error; negative half: single writers re-executed never overlap, also after builds aborted by task failures and injected panics and rebuilt top-down or bottom-up", PBT + " with injected violations; task-side/shadow-record oracle", "§7 C06"),
  "C07": ("exploration", "well-formed programs with an injected (optionally value-guarded) back-require closing a cycle of any length; interpreter stack is ground truth: nothing may execute or return after requiring an executing task, abort must be a cycle error", PBT + " with injected violations; task-side stack oracle with recursion sentinel", "§7 C07"),
@@ -18,7 +18,7 @@ checks = {
  "C13": ("exploration", "generated (state, state, checker) triples and sequences of 2-6 states on one Pie resource state, on a real temp directory with explicitly set mtimes (whole-second and sub-second parts); stamp-route agreement, exact detection of the observed aspect for every earlier stamp in every later state, reader position, writer semantics", PBT + " over filesystem states (explicit state machine, explicit mtimes)", "§7 C13"),
  "C14": ("exploration", "generated operation sequences over four key types with equal raw keys (dynamic keys over newtypes, u8, zero-sized types and Box wrappers) and raw typed state calls on four resource types against a reference map and slot model, everything compared after every op", PBT + " over operation sequences; reference model", "§7 C14"),
  "C15": ("exploration", "generated key lists from ten same-bytes task types (newtypes, Box/Rc/Arc wrappers, zero-sized types, a task resolving same-hash resources back to back) and four resource types inside a real Pie instance (top-down and bottom-up) plus all-pairs dyn KeyObj equality/hash", PBT + "; (type,value) identity model", "§7 C15"),
- "C16": ("exploration", "every generated case replayed on fresh instances in-process and in fresh processes; complete event/operation log must be identical", PBT + "; replay-equality oracle within and across processes", "§7 C16"),
+ "C16": ("exploration", "every generated case (incl. task failures and checker errors) replayed on fresh instances in-process - with unrelated instances, one of them aborted by a rejected cycle, built in between - and in fresh processes; complete event/operation log, results, error lists and resource states must be identical", PBT + "; replay-equality oracle within and across processes", "§7 C16"),
  "C17": ("exploration", "stack-machine nesting check, task-side/tracker agreement, composite stream equality, EventTracker projection; plus API-level call sequences against reference helpers", PBT + "; stack-machine invariant over event streams; reference implementations of helpers", "§7 C17"),
  "C18": ("fault_enumeration", "generated fault sets for Faulty checkers over generated histories: errors reported exactly, owners re-executed/scheduled and nothing else (full trace acceptor under faults), no abort, results equal from-scratch", PBT + " with injected checker faults (random and enumerated fault subsets)", "§7 C18"),
  "C20": ("exploration", "(a) static-role programs never abort, also in bottom-up builds after aborted builds; (b) role-changing programs and programs with one state-dependent violation: an abort is spurious unless the from-scratch evaluator of all known tasks aborts too; stale-edge patterns are recorded findings with signatures over the model and the task-side record", PBT + "; from-scratch evaluator as violation oracle; role-changing program generator", "§7 C20"),
